@@ -666,6 +666,7 @@ int main(int argc, char** argv) {
   t.nontrivial_rule = "two queue operations overlapped in step time and at least two context switches happened";
 #endif
   t.run_case = run_case;
+  t.eintr_percent = 25;  // futex_wait may return early (EINTR / spurious 0) in a quarter of the cases
   t.tune = tune;
   return vf::main_driver(argc, argv, t);
 }
